@@ -17,5 +17,7 @@ func TestWorker(t *testing.T) {
 		"C38b": checkC38b(t),
 		"C37b": checkC37b(t),
 		"C40":  checkC40(t),
+		"C12b": checkC12b(t),
+		"C35s": checkC35s(t),
 	})
 }
